@@ -5,6 +5,7 @@ package vsym
 
 import (
 	"bytes"
+	"context"
 	"encoding/gob"
 	"encoding/json"
 	"fmt"
@@ -620,3 +621,7 @@ func ForkGoroutineOrder(on bool) {}
 func Rec(key string) string { return "" }
 
 func ModelOpensKeepLockGuard() bool { return true }
+
+func Invoke(fullMethod string, ctx context.Context, req any) (any, error) {
+	return nil, fmt.Errorf("vsym.Invoke: the model transport exists only in the executor")
+}
